@@ -80,7 +80,7 @@ func (e *Engine) observablesOf(fr *Frame, st *State) []NamedTerm {
 								if tag != "" {
 									continue
 								}
-								h = Var("H0$"+smtIdent(strings.TrimPrefix(key, jivaMod+"/")), e.fieldHeapSort(f))
+								h = initHeapSym(s, key, e.fieldHeapSort(f))
 							}
 							add(r.Name()+"."+f.Name()+tag, Select(h, rv))
 						}
@@ -246,6 +246,9 @@ type replayTemplate struct {
 	pkg   string // repo-relative package dir
 	gen   func(o *Obligation, vals map[string]string) (src string, ok bool)
 	tags  string
+	// scripted: the scenario is fixed by the obligation (which exit, which handler), not by model values;
+	// it is replayed even when the solver returned unknown instead of a model
+	scripted bool
 }
 
 var replayTemplates []replayTemplate
@@ -256,9 +259,12 @@ func runReplay(rec map[string]interface{}, o *Obligation) {
 		if !t.match(o) {
 			continue
 		}
-		if o.Vals == nil {
+		if o.Vals == nil && !t.scripted {
 			rec["replay"] = "no concrete values: the solver gave no model for this obligation"
 			return
+		}
+		if o.Vals == nil {
+			o.Vals = map[string]string{}
 		}
 		src, ok := t.gen(o, o.Vals)
 		if !ok {
@@ -317,6 +323,8 @@ func execReplay(repo, pkg, tags, src string) (string, string) {
 		s = s[:6000]
 	}
 	switch {
+	case strings.Contains(s, "fatal error: sync:") || strings.Contains(s, "fatal error: all goroutines are asleep"):
+		return s, "REPLAY-REPRODUCED"
 	case strings.Contains(s, "REPLAY-REPRODUCED"):
 		return s, "REPLAY-REPRODUCED"
 	case strings.Contains(s, "REPLAY-NOT-REPRODUCED"):
